@@ -35,7 +35,20 @@ var (
 	vNilPtr *S             = nil
 	vNilMap map[string]int = nil
 	vU8     uint8          = 10
+	// interface variables whose original is a typed nil: not equal to nil, dynamic type intact
+	vErrTNil error       = (*TE)(nil)
+	vITNil   interface{} = (*S)(nil)
 )
+
+// TE is an error implementation whose method is safe on a nil receiver.
+type TE struct{ Code int }
+
+func (e *TE) Error() string {
+	if e == nil {
+		return "nil TE"
+	}
+	return "TE"
+}
 
 // Pointers (by-pointer addressing of the same unexported variables).
 func PInt() *int               { return &vInt }
@@ -54,6 +67,14 @@ func PErr() *error             { return &vErr }
 func PNilPtr() **S             { return &vNilPtr }
 func PNilMap() *map[string]int { return &vNilMap }
 func PU8() *uint8              { return &vU8 }
+func PErrTNil() *error         { return &vErrTNil }
+func PITNil() *interface{}     { return &vITNil }
+
+//go:noinline
+func GErrTNil() interface{} { return vErrTNil }
+
+//go:noinline
+func GITNil() interface{} { return vITNil }
 
 // Readers in the variables' own package ("every reader").
 //
@@ -119,7 +140,12 @@ var (
 func mkS(a int, b string) *S { return &S{A: a, B: b, c: 0.5} }
 
 //go:noinline
-func mkMap(k string, v int) map[string]int { m := make(map[string]int, 4); m[k] = v; m[k+"2"] = v + 1; return m }
+func mkMap(k string, v int) map[string]int {
+	m := make(map[string]int, 4)
+	m[k] = v
+	m[k+"2"] = v + 1
+	return m
+}
 
 //go:noinline
 func mkSlice(n int) []int {
@@ -137,10 +163,10 @@ func init() {
 	vHeapIface = mkS(43, "iface")
 }
 
-func PHeapMap() *map[string]int  { return &vHeapMap }
-func PHeapPtr() **S              { return &vHeapPtr }
-func PHeapSlice() *[]int         { return &vHeapSlice }
-func PHeapIface() *interface{}   { return &vHeapIface }
+func PHeapMap() *map[string]int { return &vHeapMap }
+func PHeapPtr() **S             { return &vHeapPtr }
+func PHeapSlice() *[]int        { return &vHeapSlice }
+func PHeapIface() *interface{}  { return &vHeapIface }
 
 //go:noinline
 func GHeapMap() interface{} { return vHeapMap }
